@@ -27,6 +27,43 @@ def run(ctx):
     r4(ctx)
     r5(ctx)
     r6(ctx)
+    ctx.rule("C13.R7", "K4/K3", "blocking-mode typestate of a connection's socket: non-blocking while the poller owns it, put back into blocking mode every time it is handed to a pool thread")
+    blocking_mode(ctx, "C13.R7")
+
+
+def blocking_mode(ctx, rid):
+    """The main loop only polls: TConn.__init__ and the keep-alive re-arm put the socket into non-blocking mode. A pool
+    thread does blocking reads and writes: recv() on a request that arrives in two segments, or sendall() of a response
+    larger than the socket buffer, would fail with EAGAIN on a non-blocking socket. Evaluated: TConn.init(), which
+    enqueue_req runs before *every* hand-over, sets blocking mode for a fresh connection and for a kept-alive one."""
+    repo = ctx.repo
+    from ..absint import Inst
+    f = ctx.fn(repo.func("gunicorn.workers.gthread.TConn.init"))
+    g = f.cfg
+    on = [n for c in method_calls(f, "setblocking") if c.args and const(c.args[0], NO) in (True, 1) for n in nodes_with(f, c)]
+    off = [n for c in method_calls(f, "setblocking") if c.args and const(c.args[0], NO) in (False, 0) for n in nodes_with(f, c)]
+    for label, env in (("a fresh connection", {"self.parser": None, "self.initialized": False, "self.cfg.is_ssl": False}),
+                       ("a fresh TLS connection", {"self.parser": None, "self.initialized": False, "self.cfg.is_ssl": True}),
+                       ("a kept-alive connection (second or later request)", {"self.parser": Inst("gunicorn.http.parser.RequestParser"), "self.initialized": True, "self.cfg.is_ssl": False})):
+        outs = Explorer(f, tracked=["self.parser", "self.initialized"]).run(g.entry, env, watch=dict([(n.id, "blocking") for n in on] + [(n.id, "nonblocking") for n in off]))
+        got = set(("blocking" in o.events, "nonblocking" in o.events) for o in outs if o.kind == "return")
+        ctx.check(rid, got == {(True, False)}, key(f, "blocking-before-thread|" + label), site(f),
+                  "TConn.init() on %s does not put the socket into blocking mode (%s): the pool thread's recv()/sendall() fail with EAGAIN as soon as a request arrives in two segments or a "
+                  "response exceeds the socket buffer -- the connection is dropped mid-request" % (label, sorted(got)), "setblocking(True) on every hand-over")
+    fe = ctx.fn(repo.func(TW + ".enqueue_req"))
+    ge = fe.cfg
+    ini = [n for c in method_calls(fe, "init") for n in nodes_with(fe, c)]
+    sub = [n for c in method_calls(fe, "submit") for n in nodes_with(fe, c)]
+    ctx.need(sub, rid + ": enqueue_req does not submit to the pool")
+    ctx.check(rid, bool(ini) and all(any(ge.dominates(a, b, follow_exc=False) for a in ini) for b in sub), key(fe, "init-before-submit"), site(fe),
+              "enqueue_req hands the connection to the pool without running conn.init() first", "conn.init() dominates tpool.submit")
+    # and the other direction: whoever gives a connection (back) to the poller makes it non-blocking first
+    ff = ctx.fn(repo.func(TW + ".finish_request"))
+    gf = ff.cfg
+    regs = [n for c in method_calls(ff, "register") if tail(c.func.value) == "poller" for n in nodes_with(ff, c)]
+    offs = [n for c in method_calls(ff, "setblocking") if c.args and const(c.args[0], NO) in (False, 0) for n in nodes_with(ff, c)]
+    ctx.check(rid, bool(regs) and all(any(gf.dominates(a, b, follow_exc=False) for a in offs) for b in regs), key(ff, "nonblocking-before-poller"), site(ff),
+              "finish_request re-registers a kept-alive connection with the poller without making its socket non-blocking", "setblocking(False) dominates poller.register")
 
 
 def _locked(f, node):
